@@ -42,7 +42,12 @@ def run(chk):
     lib.translator_lemma(chk, "route_facts", translate.route_facts, translate.coq_route_facts, "")
     chk.trusted += ["Coq 8.16.1 kernel + vm_compute", "harness/translate.py (dispatcher if-chain, Z-is-None heads, signatures; fail-closed)",
                     "harness/props/C09.py: spies wrapping every estimator function in the dispatcher's module namespace"]
-    orig = {f: getattr(M, f) for f in FUNCS}
+    # the unconditional estimators live in mutual_information.py; the dispatcher's module usually imports them, but a version
+    # that no longer does (one code path for Z = None) must not stop the check: the reference functions are then taken from their
+    # defining module and only the names present in the dispatcher's namespace are wrapped
+    MI = importlib.import_module("causationentropy.core.information.mutual_information")
+    orig = {f: getattr(M, f, None) or getattr(MI, f) for f in FUNCS}
+    present = [f for f in FUNCS if hasattr(M, f)]
     sigs = {f: inspect.signature(orig[f]) for f in FUNCS}
     log = []
 
@@ -54,7 +59,7 @@ def run(chk):
             return orig[f](*a, **kw)
         return w
     rc, rp, rd = [], [], []
-    n_cases = 330 if chk.tier == "quick" else 9000
+    n_cases = 400 if chk.tier == "quick" else 9000
     datasets = []
     for _ in range(3):
         N = int(rng.integers(10, 15))
@@ -68,14 +73,26 @@ def run(chk):
     datasets.append((N, X, Y, np.zeros((N, 2)), Xc, Yc, np.zeros((N, 2))))
     datasets.append((N, X, Y, np.column_stack([np.full(N, 3.0), Z[:, 0]]), Xc, Yc, np.column_stack([np.full(N, 2.0), Zc[:, 0]])))
     datasets.append((N, X, Y, np.column_stack([np.zeros(N), Z[:, 1]]), Xc, Yc, np.column_stack([np.zeros(N), Zc[:, 1]])))
+    # degenerate but legal X / Y: Y an exact copy of X, a constant X, a duplicated column inside X (singular or undefined correlation)
+    datasets.append((N, X, X.copy(), Z, Xc, Xc.copy(), Zc))
+    datasets.append((N, np.full((N, 1), 1.5), Y, Z, np.full((N, 1), 2.0), Yc, Zc))
+    # (the conditional Poisson estimator needs X and Y of equal width: its count version has a two-column Y as well)
+    datasets.append((N, np.column_stack([X[:, 0], X[:, 0]]), Y, Z, np.column_stack([Xc[:, 0], Xc[:, 0]]),
+                     np.column_stack([Yc[:, 0], rng.poisson(3, N).astype(float)]), Zc))
     ND = len(datasets)
-    for f in FUNCS:
+    # every degenerate dataset meets every estimator name with and without Z once; the remaining cases are drawn at random
+    plan = [(di, nm, z) for di in range(3, ND) for nm in NAMES for z in (False, True)]
+    for f in present:
         setattr(M, f, wrap(f))
     try:
         for t in range(n_cases):
             name = NAMES[t % 6] if rng.random() < 0.93 else str(rng.choice(["kernel", "KDE", "", "knn ", "gauss", "k", "density", "geometric", "Poisson"]))
             zp = bool((t // 6) % 2)
             N, X, Y, Z, Xc, Yc, Zc = datasets[t % 3] if rng.random() < 0.8 else datasets[3 + int(rng.integers(0, ND - 3))]
+            if t < len(plan):
+                di, name, zp = plan[t]
+                N, X, Y, Z, Xc, Yc, Zc = datasets[di]
+                chk.count("degenerate_dataset_plan")
             degenerate = Z.shape[0] and (not np.any(Z[:, 0] - Z[0, 0]))
             if name == "poisson":
                 X, Y, Z = Xc, Yc, Zc
@@ -153,7 +170,7 @@ def run(chk):
             if degenerate and zp:
                 chk.count("degenerate_Z")
     finally:
-        for f in FUNCS:
+        for f in present:
             setattr(M, f, orig[f])
     # known finding K1 is matched on the specific route; anything else is a violation
     pf = []
